@@ -35,10 +35,13 @@ def agg_by_name(bt, s, attr):
 
 def case_report(ctx, spec):
     bt = ctx.bt
+    interp.Probe.registry["c18read"] = _reader_cb
     try:
         b = c10.run_backtest(bt, spec)
     except Exception as e:
         raise Discard("run raised (C10's business): %s" % type(e).__name__)
+    finally:
+        interp.Probe.registry.pop("c18read", None)
     try:
         return _check_reports(bt, b, spec)
     except (Violation, Discard):
@@ -151,8 +154,27 @@ def _check_reports(bt, b, spec):
     return {"nontrivial": len(tx) >= 2, "labels": labs}
 
 
+def _reader_cb(algo, target):
+    # a user algo that merely looks at the tree's reports mid-run
+    target.positions
+    target.outlays
+    target.values
+    target.universe
+    return True
+
+
 @st.composite
 def report_spec(draw):
+    spec = draw(_report_spec())
+    if draw(st.booleans()):
+        nodes = list(gen.walk_nodes(spec["tree"]))
+        _, nd = nodes[draw(st.integers(0, len(nodes) - 1))]
+        nd["algos"].insert(draw(st.integers(0, len(nd["algos"]))), ["Probe", {"key": "c18read", "run_always": True}])
+    return spec
+
+
+@st.composite
+def _report_spec(draw):
     k = draw(st.integers(0, 9))
     if k == 0:
         # a run that never trades / has no securities
